@@ -49,7 +49,10 @@ def run(ck, progs):
     ck.rule("C11.4", "size-class integrity: lp_msg.pl_size is written only by the message allocator and by the receive path with the size the "
                      "buffer was allocated for (msg_allocator_free picks free-list vs free() from it)")
     ck.rule("C11.5", "a product of two caller-supplied sizes that reaches an allocation is overflow-checked")
+    ck.rule("C11.6", "message buffer capacity: pooled buffers hold every payload the pool path serves, the large path allocates header + payload, the "
+                     "release path pools only buffers the pool path may reuse, and the shutdown-drain buffer holds preamble + received bytes")
     for cfg, P in progs.items():
+        _capacity(ck, P, cfg)
         rules_msg.check_typestate(ck, P, "C11.1", "C11.1")
         rules_num.check_shift_widths(ck, P, "C11.2")
         rules_rollback.check_account(Renamed(ck, {}), P, "C11.3", "C11.3")
@@ -111,3 +114,78 @@ def _pl_size(ck, P, cfg):
             ck.holds("C11.4", "send-size@mpi_remote_msg_send", c.where, "sends offsetof(pl) - preamble + pl_size = %d + pl_size bytes" % sf[1], cfg)
         elif sf is not None:
             ck.violated("C11.4", "send-size@mpi_remote_msg_send", c.where, "sends %s: does not match the receiver's arithmetic (%d + pl_size)" % (X.show(X.callee_args(c)[1])[:60], off_pl - off_dest), cfg)
+
+
+def _capacity(ck, P, cfg):
+    fl = {x["name"]: x for x in P.record("lp_msg")["fields"]}
+    size = P.record("lp_msg")["size"]
+    off_pl = fl["pl"]["off"]
+    cap = size - off_pl                      # payload bytes a pooled buffer can hold
+    a = P.fn("msg_allocator_alloc")
+    ps = a.params[0]["name"]
+    allocs = list(a.calls("mm_alloc"))
+    pops = [s_ for s_ in a.walk() if s_.k == "StmtExpr" and s_.macros and s_.macros[0] == "array_pop"]
+    # threshold of the large path
+    thr = None
+    for c in allocs:
+        lf = linear(X.callee_args(c)[0])
+        if lf is not None and lf[0].get(ps) == 1:
+            paths, _ = Q.path_conditions(a, c)
+            for conds in paths:
+                for core, t in conds:
+                    cc = X.strip(core)
+                    if cc.k == "BinaryOperator" and cc.op in (">", ">=") and X.show(cc.children[0]) == ps and t:
+                        k = X.const_int(cc.children[1])
+                        thr = k if cc.op == ">" else k - 1
+            if lf[1] >= off_pl:
+                ck.holds("C11.6", "large-path@msg_allocator_alloc", c.where, "allocates payload + %d >= payload + offsetof(pl) = payload + %d" % (lf[1], off_pl), cfg)
+            else:
+                ck.violated("C11.6", "large-path@msg_allocator_alloc", c.where, "a large message gets payload %+d bytes but its payload starts at offset %d: the copy of the payload overruns the buffer by %d bytes" % (lf[1], off_pl, off_pl - lf[1]), cfg)
+    if thr is None:
+        ck.inconclusive("C11.6", "pool-path@msg_allocator_alloc", a.where, "size-class threshold not recognised", cfg)
+        return
+    small = [c for c in allocs if X.const_int(X.callee_args(c)[0]) is not None]
+    ok = all(X.const_int(X.callee_args(c)[0]) - off_pl >= thr for c in small) and bool(small)
+    if ok and thr <= cap:
+        ck.holds("C11.6", "pool-path@msg_allocator_alloc", a.where, "payloads up to %d bytes use pooled buffers of %d bytes (capacity %d)" % (thr, size, cap), cfg)
+    else:
+        ck.violated("C11.6", "pool-path@msg_allocator_alloc", a.where, "payloads up to %d bytes are served from pooled buffers that hold only %d payload bytes: msg_allocator_pack overruns them" % (thr, cap), cfg)
+    fr = P.fn("msg_allocator_free")
+    fthr = None
+    for s_ in fr.walk():
+        if s_.k == "StmtExpr" and s_.macros and s_.macros[0] == "array_push":
+            first = next(x for x in s_.walk() if x.id in fr.cfg.pos)
+            paths, _ = Q.path_conditions(fr, first)
+            for conds in paths:
+                for core, t in conds:
+                    cc = X.strip(core)
+                    if cc.k == "BinaryOperator" and cc.op in ("<=", "<") and "pl_size" in X.show(cc.children[0]) and t:
+                        k = X.const_int(cc.children[1])
+                        fthr = k if cc.op == "<=" else k - 1
+                    if cc.k == "BinaryOperator" and cc.op in (">", ">=") and "pl_size" in X.show(cc.children[0]) and t is False:
+                        k = X.const_int(cc.children[1])
+                        fthr = k if cc.op == ">" else k - 1
+    if fthr is None:
+        ck.inconclusive("C11.6", "pool-release@msg_allocator_free", fr.where, "release threshold not recognised", cfg)
+    elif fthr <= thr:
+        ck.holds("C11.6", "pool-release@msg_allocator_free", fr.where, "only buffers with payload <= %d are pooled; the pool path serves payloads <= %d from them" % (fthr, thr), cfg)
+    else:
+        ck.violated("C11.6", "pool-release@msg_allocator_free", fr.where, "buffers with payload up to %d are pooled but the large path (payload > %d) allocated some of them with exactly their own size... the pool then hands a %d-byte-payload buffer to a larger request" % (fthr, thr, thr + 1), cfg)
+    # shutdown drain buffer
+    d = P.fn("mpi_remote_msg_drain")
+    pre = fl["dest"]["off"]
+    rl = [c for c in d.calls("mm_realloc")]
+    if len(rl) == 1:
+        lf = linear(Q.resolve_local(d, X.callee_args(rl[0])[1]))
+        rcv = [c for c in d.calls("MPI_Mrecv") if "dest" in X.show(X.callee_args(c)[0])]
+        if lf is not None and list(lf[0].values()) == [1] and lf[1] >= pre and rcv and X.show(X.callee_args(rcv[0])[1]) in lf[0]:
+            # and the buffer is grown whenever the incoming message is larger than what it holds
+            ck.holds("C11.6", "drain-buffer@mpi_remote_msg_drain", rl[0].where, "scratch buffer = received size + %d >= preamble (%d) + received bytes" % (lf[1], pre), cfg)
+        else:
+            ck.violated("C11.6", "drain-buffer@mpi_remote_msg_drain", rl[0].where, "the scratch buffer (%s) does not cover preamble (%d bytes) + received bytes: MPI_Mrecv writes past it" % (X.show(X.callee_args(rl[0])[1])[:60], pre), cfg)
+        grow = [n for n in d.walk() if n.k == "BinaryOperator" and n.op in (">", ">=") and "size" in X.show(n.children[0]) and "msg_size" in X.show(n.children[1])]
+        upd = [n for n in d.walk() if n.k == "BinaryOperator" and n.op == "=" and X.show(n.children[0]) == "msg_size" and X.show(n.children[1]) == "size"]
+        if grow and upd:
+            ck.holds("C11.6", "drain-grow@mpi_remote_msg_drain", grow[0].where, "grown when size > capacity; capacity updated to size", cfg)
+        else:
+            ck.violated("C11.6", "drain-grow@mpi_remote_msg_drain", d.where, "the scratch buffer is not grown (or its recorded capacity not updated) when a larger message arrives", cfg)
